@@ -100,4 +100,26 @@ theorem usub64_ok (mode : Mode) (a b : Nat) (h : b ≤ a) (ha : a < 184467440737
   rw [e, if_pos (by omega)]
   congr 1; omega
 
+/-- `x & !(4096 - 1)` on 64-bit values is rounding down to a page -/
+theorem and_pagemask (a : Nat) (h : a < 18446744073709551616) :
+    a &&& (18446744073709551615 - 4095) = a / 4096 * 4096 := by
+  apply Nat.eq_of_testBit_eq
+  intro i
+  have hm : (18446744073709551615 - 4095 : Nat) = (2 ^ 52 - 1) * 2 ^ 12 := by decide
+  rw [Nat.testBit_and, hm, Nat.testBit_mul_two_pow, Nat.testBit_two_pow_sub_one]
+  have h4 : (4096 : Nat) = 2 ^ 12 := by decide
+  rw [h4, Nat.testBit_mul_two_pow, Nat.testBit_div_two_pow]
+  by_cases c : 12 ≤ i
+  · simp only [c, decide_true, Bool.true_and]
+    have : i - 12 + 12 = i := by omega
+    rw [this]
+    by_cases d : i - 12 < 52
+    · simp [d]
+    · have : a < 2 ^ i := by
+        have : 2 ^ 64 ≤ 2 ^ i := Nat.pow_le_pow_right (by decide) (by omega)
+        omega
+      simp [Nat.testBit_lt_two_pow this]
+  · simp [c]
+
+
 end Inj.Rt
